@@ -3,6 +3,7 @@ package pcrypto
 import (
 	"bytes"
 	"crypto/ed25519"
+	"github.com/mr-tron/base58/base58"
 	"testing"
 
 	"github.com/aperturerobotics/bifrost/hash"
@@ -38,6 +39,7 @@ type c01Case struct {
 var c01TamperOps = []string{
 	"data-mut", "sig-mut", "sig-other-body", "sig-other-ctx", "sig-other-ht",
 	"from-other", "resign-other", "ht-set", "pubkey-set", "from-mut", "data-empty", "sig-nil",
+	"from-raw-mut", "from-raw-mut",
 }
 
 var ctxGen = rapid.OneOf(
@@ -159,6 +161,16 @@ func c01Build(c c01Case) (*peer.SignedMsg, error) {
 			}
 		case "from-mut":
 			msg.FromPeerId = string(tp.Mut.Apply([]byte(msg.FromPeerId)))
+		case "from-raw-mut":
+			// a structural change of the claimed sender: the raw id bytes (multihash code, length, key) are
+			// mutated - bytes appended / inserted / removed / flipped - and re-encoded as valid base58
+			if raw, err := base58.Decode(msg.FromPeerId); err == nil {
+				raw = tp.Mut.Apply(raw)
+				if tp.Val%3 == 0 {
+					raw = append(raw, byte(tp.Key), byte(tp.Val))
+				}
+				msg.FromPeerId = base58.Encode(raw)
+			}
 		}
 	}
 	return msg, nil
